@@ -5,7 +5,7 @@ from common import *
 ID = "C12"
 GEN = ["Units"]
 THEOREMS = ["C12_neq", "C12_refl", "C12_refl_number", "C12_string_eq_sym", "C12_number_eq_sym", "C12_numeric_eq_sym", "C12_sym",
-            "C12_sym_general", "C12_refuted_sym_two_units", "C12_trichotomy", "C12_refuted_trichotomy_calc",
+            "C12_numeric_eq_sym_units", "C12_sym_general", "C12_trichotomy", "C12_refuted_trichotomy_calc",
             "C12_refuted_trichotomy_unitless"]
 COQ_HEADER = ("From Coq Require Import String List ZArith NArith Bool.\n"
               "From RV Require Import Model.Numeric Model.CssStr Model.ValueEq Run.C12.\nImport ListNotations.\n"
@@ -20,7 +20,7 @@ EXHAUSTIVE = {"quick": False, "thorough": False}
 TRUSTED = ["Spec/CssUnits.v same_group: which units can be compared",
            "strings: Model/CssStr.v (css_eq / css_unquote, shared with C27); the stored value and quotes of every string operand are read from rsass's introspection text of that operand (text between the quotes = stored value; valid because the generated strings contain no quote characters and no private-use code points); colours and function values are outside the model (clauses are still checked on the implementation's answers)",
            "the `calculated` flag of an operand inside a comparison is taken from the operand's syntactic kind (literal / parenthesised arithmetic: true; calc(): false), validated by the correspondence on < and >"]
-ASSUMPTIONS = ["symmetry is proved for map-free values whose numbers have aligned units (same unit set or one unitless); for two DIFFERENT convertible units (each direction converts the other operand, with its own rounding) and for maps (first-match lookup over a non-transitive equality) it is checked on rsass's answers only",
+ASSUMPTIONS = ["symmetry is proved for values (maps with at most one entry) whose numbers are unitless, carry equal unit sets or single known units; for unknown / compound units that differ and for maps with two or more entries (first-match lookup over a non-transitive equality) it is checked on rsass's answers only",
                "map comparisons involving numbers with two different units are outside the model (the model evaluates the inner comparisons left-to-right, the code right-to-left)"]
 
 
@@ -362,7 +362,7 @@ def coq_term(c, io):
     return (f"(mkCase {ta} {tb} {cstring(ua)} {cstring(ub)} " + " ".join(ob(o) for o in io[:6]) + ")")
 
 
-K = {0: None, 2: "known_C12_K2_calc_flag", 3: "known_C12_K3_unitless_vs_unit", 4: "known_C12_K4_two_units_asymmetric"}
+K = {0: None, 2: "known_C12_K2_calc_flag", 3: "known_C12_K3_unitless_vs_unit"}
 
 
 def show(c):
@@ -374,10 +374,10 @@ def judge(c, io, r):
     a, b = norm(c)
     if r is None:
         return {"corr": None, "clauses": [], "nontrivial": False, "tags": ["skipped"], "show": show(c)}
-    corr, sym, k4, neg, refl, tri, k23 = r
+    corr, sym, neg, refl, tri, k23 = r
     return {
         "corr": None if corr == 2 else (corr == 1),
-        "clauses": [("symmetry", sym == 1, K[k4]), ("negation", neg == 1, None),
+        "clauses": [("symmetry", sym == 1, None), ("negation", neg == 1, None),
                     ("reflexivity", refl == 1, None), ("trichotomy", tri == 1, K[k23])],
         "nontrivial": a[0] == b[0],
         "tags": [a[0], "same-kind" if a[0] == b[0] else "mixed"],
@@ -394,5 +394,5 @@ LEVEL_TEXT = ("proof: css::Value equality (numbers with the symmetric relative-e
               "flags, refuted for differing flags and for unitless-vs-unit")
 LEVEL_NOTE = ("trusted: Coq kernel+vm_compute, Flocq, harness, rs2v unit tables, Spec/CssUnits.v; colours/functions/escaped "
               "strings only checked on the implementation's answers; symmetry for two different convertible units and for maps only "
-              "explored; known findings F18, F19, F31 (F17 fixed in 5445670)")
+              "explored; known findings F18, F19 (F17 fixed in 5445670, F31 fixed in 14ede20)")
 TECHNIQUE = "Coq proof (structural induction with a nested-list principle, case analysis) + differential correspondence"
